@@ -280,6 +280,73 @@ async def introspection_context_scenario(rng, sdl=None, requests=None, roles=("g
     return problems, len(reqs) * 9
 
 
+MUTATING_SDL = """
+input Paging { sort: [String] = ["id"] size: Int = 10 }
+type Query {
+  search(term: String, scopes: [String] = ["public"], paging: Paging = {size: 5}, flags: [[Int]] = [[1], []]): String
+  plain(n: Int = 3, tags: [String] = ["a"]): String
+}
+"""
+MUTATING_REQUESTS = [
+    ("{ search(term: \"a\") }", {}), ("{ search }", {}), ("{ plain search(scopes: [\"own\"]) }", {}),
+    ("query ($s: [String]) { search(scopes: $s) plain }", {}), ("query ($s: [String]) { search(scopes: $s) }", {"s": ["v"]}),
+    ("{ a: search(paging: {}) b: plain(n: 1) }", {}), ("query ($p: Paging) { search(paging: $p) }", {}),
+]
+
+
+async def mutating_resolver_scenario(rng):
+    """resolvers that MODIFY the argument values they receive (append to a list, set a key of an input object), tagged with
+    the request's context -- legal user code, every call gets its own values (seed C15-h): argument DEFAULTS of list /
+    input-object type, nested input-field defaults included, must be fresh per request"""
+    from tartiflette import create_engine, Resolver
+    problems = []
+
+    def register(name):
+        async def body(p, a, c, i):
+            await asyncio.sleep(0)
+            seen = json.dumps(a, sort_keys=True)
+            for v in list(a.values()):
+                if isinstance(v, list):
+                    v.append("tenant:%s" % c["who"])
+                    for x in v:
+                        if isinstance(x, list):
+                            x.append(c["n"])
+                if isinstance(v, dict):
+                    v["touched_by"] = c["who"]
+                    if isinstance(v.get("sort"), list):
+                        v["sort"].append(c["who"])
+            return seen
+        Resolver("Query.search", schema_name=name)(body)
+        Resolver("Query.plain", schema_name=name)(body)
+
+    async def fresh():
+        name = fresh_schema_name("c15mut")
+        register(name)
+        return await create_engine(MUTATING_SDL, schema_name=name)
+
+    reqs = [(q, v, who) for (q, v) in MUTATING_REQUESTS for who in ("acme", "globex")]
+    solo = {}
+    for k, (q, v, who) in enumerate(reqs):
+        solo[k] = await (await fresh()).execute(q, variables=dict(v), context={"who": who, "n": k})
+    shared = await fresh()
+    order = list(range(len(reqs)))
+    for rnd in range(2):
+        rng.shuffle(order)
+        for k in order:
+            q, v, who = reqs[k]
+            r = await shared.execute(q, variables=dict(v), context={"who": who, "n": k})
+            if json.dumps(r, sort_keys=True) != json.dumps(solo[k], sort_keys=True):
+                problems.append("sequential round %d: %s %r as %s answered %s, alone on a fresh engine %s" % (
+                    rnd, q, v, who, json.dumps(r)[:400], json.dumps(solo[k])[:400]))
+        rs = await asyncio.gather(*[shared.execute(reqs[k][0], variables=dict(reqs[k][1]), context={"who": reqs[k][2], "n": k})
+                                    for k in order])
+        for k, r in zip(order, rs):
+            if json.dumps(r, sort_keys=True) != json.dumps(solo[k], sort_keys=True):
+                problems.append("concurrent round %d: %s %r as %s answered %s, alone on a fresh engine %s" % (
+                    rnd, reqs[k][0], reqs[k][1], reqs[k][2], json.dumps(r)[:400], json.dumps(solo[k])[:400]))
+    return problems, len(reqs) * 5
+
+
 async def family_histories(rng, rounds):
     """Requests issued one after the other on ONE engine behave as on a fresh engine: the invalid / valid document family
     of the C16 check (cycles then valid nestings over the same fragment names, one operation text over different
@@ -428,6 +495,8 @@ def main(tier_, replay=None):
     p2, n2 = asyncio.run(introspection_context_scenario(rng, NO_INTROSPECTION_SDL, NO_INTROSPECTION_REQUESTS, roles=("guest",)))
     intro_problems += ["non-introspectable schema: " + x for x in p2]
     total_requests += n2
+    mut_problems, nm = asyncio.run(mutating_resolver_scenario(random.Random(seed * 331 + 15)))
+    total_requests += nm
     fam_problems, nf = asyncio.run(family_histories(rng, 2 if tier_ == "quick" else 5))
     total_requests += nf
     for pr in fam_problems[:3]:
@@ -435,7 +504,10 @@ def main(tier_, replay=None):
     for pr in intro_problems[:3]:
         rep.violation({"property": "C15", "kind": "the context of one request changes what another request is answered "
                        "(introspection directive depending on the context)", "sdl": INTROSPECTION_SDL, "problem": pr})
-    viol_extra = len(intro_problems) + len(fam_problems)
+    for pr in mut_problems[:3]:
+        rep.violation({"property": "C15", "kind": "a resolver modifying the argument values IT received changes what other requests "
+                       "are answered (argument defaults must be fresh per request)", "sdl": MUTATING_SDL, "problem": pr})
+    viol_extra = len(intro_problems) + len(fam_problems) + len(mut_problems)
     for s, res, why in viol[:5]:
         rep.violation({"property": "C15", "kind": why[:6], "sdl": gen.schema_sdl(s),
                        "requests": [{"query": c["query"], "variables": c["variables"], "operation_name": c.get("opname"),
